@@ -7,6 +7,7 @@ package fn
 //@ spec p2(k int) real = ite(k <= 0, 1.0, 2.0*p2(k-1))
 
 //@ func FindRoot(fn, fn_dx, initialX, minX, maxX, tolerance, convergenceLimit, maxIterations) returns (x, delta)
+//@   locals maxDelta, minDelta, iteration, trialXs, trialDeltas, halvingX, bisectionX, deriv, newtonRaphsonX, minTrialX, minTrialDelta, maxTrialX, maxTrialDelta, hitConvergenceLimit, trial, trialDelta
 //@   safety C18
 //@   requires minX <= initialX && initialX <= maxX
 //@   requires fn(minX) <= 0 && 0 <= fn(maxX) && fn(minX) < fn(maxX)
@@ -31,6 +32,7 @@ package fn
 //@ # The same function under the additional assumption that fn is non-decreasing
 //@ # (first half of the property statement).
 //@ func FindRoot#monotone(fn, fn_dx, initialX, minX, maxX, tolerance, convergenceLimit, maxIterations) returns (x, delta)
+//@   locals maxDelta, minDelta, iteration, trialXs, trialDeltas, halvingX, bisectionX, deriv, newtonRaphsonX, minTrialX, minTrialDelta, maxTrialX, maxTrialDelta, hitConvergenceLimit, trial, trialDelta
 //@   requires minX <= initialX && initialX <= maxX
 //@   requires fn(minX) <= 0 && 0 <= fn(maxX) && fn(minX) < fn(maxX)
 //@   requires tolerance > 0 && maxIterations >= 1
@@ -50,6 +52,7 @@ package fn
 //@   loop 1 invariant forall(k, 0, len(trialXs), minX <= trialXs[k] && trialXs[k] <= maxX)
 
 //@ func brackets(x, xs) returns (i, j)
+//@   locals idx, n, valueAtJ
 //@   safety C18
 //@   requires xs.len >= 2
 //@   requires forall(a, 0, xs.len, forall(b, 0, xs.len, implies(a < b, xs.at(a) < xs.at(b))))
@@ -62,6 +65,7 @@ package fn
 //@   loop 0 invariant forall(k, 1, j, xs.at(k) < x)
 
 //@ func Piecewise(x, xs, ys) returns (y, err)
+//@   locals i, j, idx, x0, x1, frac, y0, y1
 //@   canary [C18.canary-piecewise] y == x
 //@   safety C18
 //@   requires xs.len >= 2 && ys.len == xs.len
@@ -75,6 +79,7 @@ package fn
 //@ # NaN mode (IEEE 754: every ordered comparison with NaN is false): a
 //@ # not-a-number argument is reported as an error, never as a number.
 //@ func brackets#nan(x, xs) returns (i, j)
+//@   locals idx, n, valueAtJ
 //@   nan x
 //@   requires xs.len >= 2
 //@   assigns nothing
@@ -82,6 +87,7 @@ package fn
 //@   loop 0 invariant 1 <= j && j <= n && i == j-1 && n == xs.len
 
 //@ func Piecewise#nan(x, xs, ys) returns (y, err)
+//@   locals i, j, idx, x0, x1, frac, y0, y1
 //@   nan x
 //@   requires xs.len >= 2 && ys.len == xs.len
 //@   assigns nothing
